@@ -29,6 +29,7 @@ void verif_trace(void* vm, const value* v);
 int verif_event(int kind, long a, long b);
 }
 
+static size_t copy_out_(const std::string& s, char* buf, size_t cap) { size_t n = s.length() < cap ? s.length() : cap; for (size_t i = 0; i < n; i++) buf[i] = s[i]; if (n < cap) buf[n] = 0; return s.length(); }
 namespace {
 class vlogger : public Logger
 {
@@ -187,6 +188,32 @@ int w_vm_register_dummy(void* p, int kind, const char* name, int prec)
     if (kind == 1) { if (rt->sqfop_exists_unary(n)) return 0; rt->register_sqfop(unary(n, t_any(), "", dummy_u)); return 1; }
     if (rt->sqfop_exists_binary(n)) return 0;
     rt->register_sqfop(binary((short)prec, n, t_any(), t_any(), "", dummy_b)); return 1;
+}
+// ---- file io: mappings, path resolution, running a text that lives at a given path (so that #include resolves relative to it)
+void w_vm_add_mapping(void* p, const char* phys, const char* virt) { ((vm_t*)p)->rt->fileio().add_mapping(phys, virt); }
+int w_vm_get_info(void* p, const char* view, const char* cur_phys, const char* cur_virt, char* out_phys, char* out_virt, size_t cap)
+{
+    auto res = ((vm_t*)p)->rt->fileio().get_info(view, { std::string(cur_phys), std::string(cur_virt) });
+    if (!res.has_value()) return 0;
+    copy_out_(res->physical, out_phys, cap); copy_out_(res->virtual_, out_virt, cap);
+    return 1;
+}
+long w_vm_read_file(void* p, const char* phys, const char* virt, char* out, size_t cap)
+{
+    auto s = ((vm_t*)p)->rt->fileio().read_file({ std::string(phys), std::string(virt) });
+    return (long)copy_out_(s, out, cap);
+}
+int w_vm_run_sqf_at(void* p, const char* code, size_t n, const char* phys, const char* virt)
+{
+    auto v = (vm_t*)p;
+    sqf::runtime::fileio::pathinfo pi{ std::string(phys), std::string(virt) };
+    auto pp = v->rt->parser_preprocessor().preprocess(*v->rt, std::string_view(code, n), pi);
+    if (!pp.has_value()) return -2;
+    auto set = v->rt->parser_sqf().parse(*v->rt, *pp, pi);
+    if (!set.has_value()) return -3;
+    auto context = v->rt->context_create().lock();
+    context->push_frame({ v->rt->default_value_scope(), set.value() });
+    return (int)v->rt->execute(runtime::action::start);
 }
 // ---- value construction / equality / hashing kernels (value::operator==, data::equals, std::hash<value>)
 const value* w_val_new_scalar(float f) { return new value(f); }
